@@ -4,6 +4,7 @@ import (
 	"context"
 	"encoding/binary"
 	"fmt"
+	"github.com/PowerDNS/lightningstream/utils/verifhook"
 	"math/rand"
 	"runtime"
 	"time"
@@ -15,6 +16,9 @@ import (
 // SleepContext sleeps for given duration. If the context closes in the
 // meantime, it returns immediately with a context.Canceled error.
 func SleepContext(ctx context.Context, d time.Duration) error {
+	if handled, err := verifhook.Sleep(ctx, d); handled {
+		return err
+	}
 	t := time.NewTimer(d)
 	defer t.Stop()
 	select {
@@ -91,6 +95,9 @@ func TimeDiff(t1, t0 time.Time) time.Duration {
 
 // GC runs the garbage collector and logs some memory stats
 func GC() time.Duration {
+	if verifhook.Skip("utils.GC") {
+		return 0
+	}
 	var before, after runtime.MemStats
 	t0 := time.Now()
 	runtime.ReadMemStats(&before)
